@@ -17,7 +17,7 @@ import (
 //     `s.nameFromID(id)`, `s.prefix + name`, `&storage.Query{…}`) are replaced by their definition;
 //   - `if … { …return } else X` is the same as `if … { …return }; X`: an else after a branch that leaves the function
 //     is flattened, also through `else if` chains;
-//   - the remaining locals are renamed in order of definition (l0, l1, …; `err` keeps its name), the receiver is `s`,
+//   - the remaining locals — `err` included — are renamed in order of definition (l0, l1, …), the receiver is `s`,
 //     the parameters are p0, p1, …;
 //   - message strings are shortened by skelExpr().
 // A body that cannot be normalised like this is emitted as it is: the obligation then fails (refuse, do not guess).
@@ -95,6 +95,9 @@ func (g *gcsNorm) expr(e ast.Expr) ast.Expr {
 	case *ast.SelectorExpr:
 		return &ast.SelectorExpr{X: g.expr(t.X), Sel: t.Sel}
 	case *ast.CallExpr:
+		if f := exprString(t.Fun); f == "context.TODO" || f == "context.Background" {
+			return &ast.Ident{Name: "emptyCtx"} // both are the empty context
+		}
 		c := &ast.CallExpr{Fun: g.expr(t.Fun), Ellipsis: t.Ellipsis}
 		for _, a := range t.Args {
 			c.Args = append(c.Args, g.expr(a))
@@ -324,7 +327,7 @@ func gcsNormalise(fd *ast.FuncDecl) []ast.Stmt {
 	}
 	k = 0
 	for _, n := range order {
-		if n == "err" || n == "log" || g.inline[n] != nil {
+		if n == "log" || g.inline[n] != nil {
 			continue
 		}
 		g.rename[n] = fmt.Sprintf("l%d", k)
